@@ -685,4 +685,320 @@ theorem amountLocked_antitone (s : State) (hi : 0 ≤ s.initial) {e1 e2 : Int} (
       have := (divCeil_spec (n := s.initial * (s.duration - e1)) hd).1
       omega
 
+/-! ### frame facts: which fields an operation can touch -/
+
+def Cfg (s : State) : List Nat × Nat × Int × Int × Int :=
+  (s.signers, s.threshold, s.initial, s.start, s.duration)
+
+theorem cancel_frame {s s' : State} {c id : Nat} {hk : Bool} (h : cancel s c id hk = .ok s') :
+    s'.self = s.self ∧ s'.executed = s.executed ∧ Cfg s' = Cfg s := by
+  unfold cancel at h
+  simp only [guard_ok] at h
+  obtain ⟨_, h⟩ := h
+  cases hl : alookup id s.pending with
+  | none => simp [hl] at h
+  | some txn =>
+    simp only [hl, guard_ok] at h
+    obtain ⟨_, _, h⟩ := h
+    injection h with h; subst h; exact ⟨rfl, rfl, rfl⟩
+
+theorem addSigner_frame {s s' : State} {c a : Nat} {b : Bool} (h : addSigner s c a b = .ok s') :
+    s'.self = s.self ∧ s'.executed = s.executed ∧ c = s.self := by
+  unfold addSigner at h
+  simp only [guard_ok] at h
+  obtain ⟨hc, _, _, h⟩ := h
+  injection h with h; subst h; exact ⟨rfl, rfl, by simpa using hc⟩
+
+theorem removeSigner_frame {s s' : State} {c a : Nat} {b : Bool}
+    (h : removeSigner s c a b = .ok s') :
+    s'.self = s.self ∧ s'.executed = s.executed ∧ c = s.self := by
+  unfold removeSigner at h
+  simp only [guard_ok] at h
+  obtain ⟨hc, _, _, _, _, h⟩ := h
+  injection h with h; subst h; exact ⟨rfl, rfl, by simpa using hc⟩
+
+theorem swapSigner_frame {s s' : State} {c f t : Nat} (h : swapSigner s c f t = .ok s') :
+    s'.self = s.self ∧ s'.executed = s.executed ∧ c = s.self := by
+  unfold swapSigner at h
+  simp only [guard_ok] at h
+  obtain ⟨hc, _, _, h⟩ := h
+  injection h with h; subst h; exact ⟨rfl, rfl, by simpa using hc⟩
+
+theorem changeThreshold_frame {s s' : State} {c n : Nat} (h : changeThreshold s c n = .ok s') :
+    s'.self = s.self ∧ s'.executed = s.executed ∧ c = s.self := by
+  unfold changeThreshold at h
+  simp only [guard_ok] at h
+  obtain ⟨hc, _, h⟩ := h
+  injection h with h; subst h; exact ⟨rfl, rfl, by simpa using hc⟩
+
+theorem lockBalance_frame {s s' : State} {c : Nat} {st d amt : Int}
+    (h : lockBalance s c st d amt = .ok s') :
+    s'.self = s.self ∧ s'.executed = s.executed ∧ c = s.self := by
+  unfold lockBalance at h
+  simp only [guard_ok] at h
+  obtain ⟨hc, _, _, _, h⟩ := h
+  injection h with h; subst h; exact ⟨rfl, rfl, by simpa using hc⟩
+
+/-! ### the executed-ids ghost only grows -/
+
+/-- relative to the state an activation started in: ids recorded as executed stay recorded in the
+    committed state and in the state of every inner send inside the activation -/
+def ResMono (s : State) (r : Res) : Prop :=
+  (∀ s' ret, r.out = .ok (s', ret) → ∀ i ∈ s.executed, i ∈ s'.executed) ∧
+  (∀ ev ∈ r.trace, ∀ i ∈ s.executed, i ∈ ev.pre.executed)
+
+def SubMono (sub : Sub) : Prop := ∀ s a, ResMono s (sub s a)
+
+theorem ResMono.err (s : State) (e : Err) : ResMono s ⟨.error e, []⟩ :=
+  ⟨fun _ _ h => by simp at h, fun _ h => by simp at h⟩
+
+theorem ResMono.stateOr {s : State} {r : Res} (h : ResMono s r) :
+    ∀ i ∈ s.executed, i ∈ (r.stateOr s).executed := by
+  unfold Res.stateOr
+  cases ho : r.out with
+  | error e => exact fun i hi => hi
+  | ok p => obtain ⟨s', ret⟩ := p; exact h.1 s' ret ho
+
+/-- weaken the starting state -/
+theorem ResMono.from {s0 s : State} {r : Res} (h : ResMono s r)
+    (h0 : ∀ i ∈ s0.executed, i ∈ s.executed) : ResMono s0 r :=
+  ⟨fun s' ret ho i hi => h.1 s' ret ho i (h0 i hi), fun ev hm i hi => h.2 ev hm i (h0 i hi)⟩
+
+theorem runChildren_mono {sub : Sub} (h : SubMono sub) (self : Nat) :
+    ∀ (cs : List Act) (s : State),
+      (∀ i ∈ s.executed, i ∈ (runChildren sub self s cs).1.executed) ∧
+      ∀ ev ∈ (runChildren sub self s cs).2, ∀ i ∈ s.executed, i ∈ ev.pre.executed
+  | [], s => by simp [runChildren]
+  | a :: rest, s => by
+    simp only [runChildren]
+    by_cases hc : a.msg.caller = self
+    · simp only [hc, if_true]; exact runChildren_mono h self rest s
+    · simp only [hc, if_false]
+      have hr := h s a
+      have ih := runChildren_mono h self rest ((sub s a).stateOr s)
+      refine ⟨fun i hi => ih.1 i (hr.stateOr i hi), ?_⟩
+      intro ev hev i hi
+      rcases List.mem_append.mp hev with h1 | h2
+      · exact hr.2 ev h1 i hi
+      · exact ih.2 ev h2 i (hr.stateOr i hi)
+
+theorem execIfApproved_mono {sub : Sub} (h : SubMono sub) (epoch : Int) (s : State) (id : Nat)
+    (txn : Tx) (sendOk : Bool) (children : List Act) :
+    ResMono s (execIfApproved sub epoch s id txn sendOk children) ∧
+    ∀ s' ret, (execIfApproved sub epoch s id txn sendOk children).out = .ok (s', ret) →
+      ret.txId = id ∧ (ret.applied = true → id ∈ s'.executed) := by
+  unfold execIfApproved
+  by_cases ht : s.threshold ≤ txn.approved.length
+  · simp only [ht, if_true]
+    cases hc : checkAvailable s txn.value epoch with
+    | error e => exact ⟨ResMono.err s e, fun _ _ he => by simp at he⟩
+    | ok u =>
+      simp only []
+      by_cases hto : txn.to = s.self
+      · simp only [hto, if_true]
+        generalize hr' : sub _ _ = r
+        obtain ⟨s2, a2, hr2, hex⟩ : ∃ s2 a2, r = sub s2 a2 ∧ s2.executed = id :: s.executed :=
+          ⟨_, _, hr'.symm, rfl⟩
+        have hr := h s2 a2
+        rw [← hr2] at hr
+        have hcons : ∀ i, i = id ∨ i ∈ s.executed → i ∈ id :: s.executed := by
+          intro i hi
+          rcases hi with e | e
+          · rw [e]; exact List.mem_cons_self
+          · exact List.mem_cons_of_mem _ e
+        refine ⟨⟨?_, ?_⟩, ?_⟩
+        · intro s' r' he i hi
+          injection he with he; injection he with he1 he2; subst he1
+          cases hout : r.out with
+          | error e => exact hcons i (Or.inr hi)
+          | ok p =>
+            obtain ⟨s3, ret⟩ := p
+            cases sendOk
+            · exact hcons i (Or.inr hi)
+            · exact hr.1 _ _ hout i (hex ▸ hcons i (Or.inr hi))
+        · intro ev hm i hi
+          rcases List.mem_cons.mp hm with e | e
+          · rw [e]; exact hi
+          · exact hr.2 ev e i (hex ▸ List.mem_cons_of_mem _ hi)
+        · intro s' r' he
+          injection he with he; injection he with he1 he2; subst he1; subst he2
+          refine ⟨rfl, fun _ => ?_⟩
+          cases hout : r.out with
+          | error e => exact hcons id (Or.inl rfl)
+          | ok p =>
+            obtain ⟨s3, ret⟩ := p
+            cases sendOk
+            · exact hcons id (Or.inl rfl)
+            · exact hr.1 _ _ hout id (hex ▸ hcons id (Or.inl rfl))
+      · simp only [hto, if_false]
+        generalize hn' : runChildren sub s.self _ children = n
+        obtain ⟨s2, hn2, hex⟩ : ∃ s2, n = runChildren sub s.self s2 children ∧
+            s2.executed = id :: s.executed := ⟨_, hn'.symm, rfl⟩
+        have hrc := runChildren_mono h s.self children s2
+        rw [← hn2] at hrc
+        have hcons : ∀ i, i = id ∨ i ∈ s.executed → i ∈ id :: s.executed := by
+          intro i hi
+          rcases hi with e | e
+          · rw [e]; exact List.mem_cons_self
+          · exact List.mem_cons_of_mem _ e
+        refine ⟨⟨?_, ?_⟩, ?_⟩
+        · intro s' r' he i hi
+          injection he with he; injection he with he1 he2; subst he1
+          cases sendOk
+          · exact hcons i (Or.inr hi)
+          · exact hrc.1 i (hex ▸ hcons i (Or.inr hi))
+        · intro ev hm i hi
+          rcases List.mem_cons.mp hm with e | e
+          · rw [e]; exact hi
+          · exact hrc.2 ev e i (hex ▸ List.mem_cons_of_mem _ hi)
+        · intro s' r' he
+          injection he with he; injection he with he1 he2; subst he1; subst he2
+          refine ⟨rfl, fun _ => ?_⟩
+          cases sendOk
+          · exact hcons id (Or.inl rfl)
+          · exact hrc.1 id (hex ▸ hcons id (Or.inl rfl))
+  · simp only [ht, if_false]
+    refine ⟨⟨?_, fun _ hm => by simp at hm⟩, ?_⟩
+    · intro s' r' he i hi
+      injection he with he; injection he with he1 he2; subst he1; exact hi
+    · intro s' r' he
+      injection he with he; injection he with he1 he2; subst he2
+      exact ⟨rfl, fun hf => by simp at hf⟩
+
+/-- a result that reports `applied` has recorded the transaction id as executed -/
+def ResRec (r : Res) : Prop :=
+  ∀ s' ret, r.out = .ok (s', ret) → ret.applied = true → ret.txId ∈ s'.executed
+
+theorem ResRec.err (e : Err) (t : List Event) : ResRec ⟨.error e, t⟩ :=
+  fun _ _ h => by simp at h
+
+theorem execIfApproved_rec {sub : Sub} (h : SubMono sub) (epoch : Int) (s : State) (id : Nat)
+    (txn : Tx) (sendOk : Bool) (children : List Act) :
+    ResRec (execIfApproved sub epoch s id txn sendOk children) := by
+  intro s' ret ho ha
+  have := (execIfApproved_mono h epoch s id txn sendOk children).2 s' ret ho
+  rw [this.1]; exact this.2 ha
+
+theorem approveTransaction_mono {sub : Sub} (h : SubMono sub) (epoch : Int) (s : State)
+    (caller id : Nat) (txn : Tx) (sendOk : Bool) (children : List Act) :
+    ResMono s (approveTransaction sub epoch s caller id txn sendOk children) ∧
+    ResRec (approveTransaction sub epoch s caller id txn sendOk children) := by
+  unfold approveTransaction
+  by_cases hc : caller ∈ txn.approved
+  · simp only [hc, if_true]; exact ⟨ResMono.err s _, ResRec.err _ _⟩
+  · simp only [hc, if_false]
+    exact ⟨(execIfApproved_mono h epoch _ id _ sendOk children).1.from (fun i hi => hi),
+      execIfApproved_rec h epoch _ id _ sendOk children⟩
+
+theorem propose_mono {sub : Sub} (h : SubMono sub) (epoch : Int) (s : State) (caller to : Nat)
+    (value : Int) (method : Nat) (params : List Int) (sendOk : Bool) (children : List Act) :
+    ResMono s (propose sub epoch s caller to value method params sendOk children) ∧
+    ResRec (propose sub epoch s caller to value method params sendOk children) := by
+  unfold propose
+  by_cases hv : value < 0
+  · simp only [hv, if_true]; exact ⟨ResMono.err s _, ResRec.err _ _⟩
+  · simp only [hv, if_false]
+    by_cases hc : caller ∉ s.signers
+    · simp only [hc, if_true]; exact ⟨ResMono.err s _, ResRec.err _ _⟩
+    · simp only [hc, if_false]
+      exact ⟨(approveTransaction_mono h epoch _ _ _ _ _ _).1.from (fun i hi => hi),
+        (approveTransaction_mono h epoch _ _ _ _ _ _).2⟩
+
+theorem approve_mono {sub : Sub} (h : SubMono sub) (epoch : Int) (s : State) (caller id : Nat)
+    (hashOk sendOk : Bool) (children : List Act) :
+    ResMono s (approve sub epoch s caller id hashOk sendOk children) ∧
+    ResRec (approve sub epoch s caller id hashOk sendOk children) := by
+  unfold approve
+  by_cases hc : caller ∉ s.signers
+  · simp only [hc, if_true]; exact ⟨ResMono.err s _, ResRec.err _ _⟩
+  · simp only [hc, if_false]
+    cases hl : alookup id s.pending with
+    | none => exact ⟨ResMono.err s _, ResRec.err _ _⟩
+    | some txn =>
+      simp only []
+      cases hashOk
+      · exact ⟨ResMono.err s _, ResRec.err _ _⟩
+      · simp only [Bool.not_true, Bool.false_eq_true, if_false]
+        have hr := (execIfApproved_mono h epoch s id txn sendOk children).1
+        have hr2 := execIfApproved_rec h epoch s id txn sendOk children
+        generalize execIfApproved sub epoch s id txn sendOk children = r at hr hr2
+        cases ho : r.out with
+        | error e => exact ⟨⟨fun _ _ he => by simp at he, hr.2⟩, ResRec.err _ _⟩
+        | ok p =>
+          obtain ⟨s1, ret⟩ := p
+          simp only []
+          by_cases ha : ret.applied
+          · simp only [ha, if_true]; exact ⟨hr, hr2⟩
+          · simp only [ha, if_false]
+            exact approveTransaction_mono h epoch s caller id txn sendOk children
+
+theorem pureRes_mono {s : State} {r : Except Err State}
+    (h : ∀ s', r = .ok s' → s'.executed = s.executed) :
+    ResMono s (pureRes r) ∧ ResRec (pureRes r) := by
+  unfold pureRes
+  cases r with
+  | error e => exact ⟨ResMono.err s e, ResRec.err _ _⟩
+  | ok s1 =>
+    refine ⟨⟨?_, fun _ hm => by simp at hm⟩, ?_⟩
+    · intro s' ret he i hi
+      injection he with he; injection he with he1 _; subst he1
+      rw [h s1 rfl]; exact hi
+    · intro s' ret he ha
+      injection he with he; injection he with _ he2; subst he2
+      simp at ha
+
+theorem execMsg_mono {sub : Sub} (h : SubMono sub) (epoch : Int) (s : State) (a : Act) :
+    ResMono s (execMsg sub epoch s a) ∧ ResRec (execMsg sub epoch s a) := by
+  unfold execMsg
+  by_cases hv : a.msg.value < 0
+  · simp only [hv, if_true]; exact ⟨ResMono.err s _, ResRec.err _ _⟩
+  · simp only [hv, if_false]
+    cases hcall : a.msg.call with
+    | receive =>
+      refine ⟨⟨?_, fun _ hm => by simp at hm⟩, ?_⟩
+      · intro s' ret he i hi
+        injection he with he; injection he with he1 _; subst he1; exact hi
+      · intro s' ret he ha
+        injection he with he; injection he with _ he2; subst he2; simp at ha
+    | bad => exact ⟨ResMono.err s _, ResRec.err _ _⟩
+    | propose to value method params =>
+      have := propose_mono h epoch ({ s with balance := s.balance + a.msg.value } : State)
+        a.msg.caller to value method params a.sendOk a.children
+      exact ⟨this.1.from (fun i hi => hi), this.2⟩
+    | approve id hashOk =>
+      have := approve_mono h epoch ({ s with balance := s.balance + a.msg.value } : State)
+        a.msg.caller id hashOk a.sendOk a.children
+      exact ⟨this.1.from (fun i hi => hi), this.2⟩
+    | cancel id hashOk => exact pureRes_mono (fun _ he => (cancel_frame he).2.1)
+    | addSigner x inc => exact pureRes_mono (fun _ he => (addSigner_frame he).2.1)
+    | removeSigner x dec => exact pureRes_mono (fun _ he => (removeSigner_frame he).2.1)
+    | swapSigner f t => exact pureRes_mono (fun _ he => (swapSigner_frame he).2.1)
+    | changeThreshold n => exact pureRes_mono (fun _ he => (changeThreshold_frame he).2.1)
+    | lockBalance st d amt => exact pureRes_mono (fun _ he => (lockBalance_frame he).2.1)
+
+theorem failSub_mono : SubMono failSub := fun s _ => ResMono.err s _
+
+theorem exec_mono (epoch : Int) : ∀ fuel, SubMono (exec fuel epoch)
+  | 0 => fun s a => (execMsg_mono failSub_mono epoch s a).1
+  | n + 1 => fun s a => (execMsg_mono (exec_mono epoch n) epoch s a).1
+
+theorem exec_rec (epoch : Int) (fuel : Nat) (s : State) (a : Act) : ResRec (exec fuel epoch s a) := by
+  cases fuel with
+  | zero => exact (execMsg_mono failSub_mono epoch s a).2
+  | succ n => exact (execMsg_mono (exec_mono epoch n) epoch s a).2
+
+theorem run_mono (fuel : Nat) : ∀ (ops : List Op) (s : State),
+    (∀ i ∈ s.executed, i ∈ (run fuel s ops).1.executed) ∧
+    ∀ ev ∈ (run fuel s ops).2, ∀ i ∈ s.executed, i ∈ ev.pre.executed
+  | [], s => ⟨fun _ hi => hi, fun _ hm => by simp [run] at hm⟩
+  | op :: rest, s => by
+    have h1 := exec_mono op.epoch fuel s op.act
+    have h2 := run_mono fuel rest (step fuel s op).1
+    refine ⟨fun i hi => h2.1 i (h1.stateOr i hi), ?_⟩
+    intro ev hm i hi
+    simp only [run] at hm
+    rcases List.mem_append.mp hm with e | e
+    · exact h1.2 ev e i hi
+    · exact h2.2 ev e i (h1.stateOr i hi)
+
 end BA.Multisig
